@@ -1609,6 +1609,8 @@ MEMO_KEYS = []          # rows of `Gen.Alias.memoKeys`: (site name, key copies t
 
 # calls that build a NEW immutable object from the CONTENTS of their argument
 COPYING_CALLS = {"tuple", "bytes", "frozenset", "str", "repr", "hash", "int", "len", "sum", "hexlify", "sorted_tuple"}
+# element expressions of a comprehension that are NEW immutable objects holding the element's contents at call time
+IMMUTABLE_ELEMENT_CALLS = {"bytes", "str", "repr", "hexlify", "int"}
 
 
 def memo_key_kind(fd, test, fld, params):
@@ -1648,6 +1650,15 @@ def memo_key_kind(fd, test, fld, params):
         return False
     if aliasing(expr):
         return ("aliases", "key = %s holds the caller's object" % text)
+    if isinstance(expr, ast.Call) and call_name(expr) in COPYING_CALLS and expr.args \
+            and isinstance(expr.args[0], (ast.ListComp, ast.GeneratorExp, ast.SetComp)):
+        # tuple([sc.data for sc in spks]) is a SHALLOW copy: a new tuple whose elements are the objects the caller's
+        # elements hold (a bytearray `.data` edited in place then compares equal to itself: audit2 B-7 / X5). Deep only
+        # when every element is itself rebuilt as an immutable object: tuple([bytes(sc.data) for sc in spks])
+        elt = expr.args[0].elt
+        if not (isinstance(elt, ast.Constant) or (isinstance(elt, ast.Call) and call_name(elt) in IMMUTABLE_ELEMENT_CALLS)):
+            return ("aliases", "key = %s copies the list but holds each element's own object (%s): an element edited in "
+                               "place still compares equal to itself" % (text, ast.unparse(elt)))
     if isinstance(expr, ast.Call) and call_name(expr) in COPYING_CALLS:
         # tuple(p) copies the list but not its elements: elements that are parameters' own mutable objects are found by the
         # in-place probe (it edits the elements too); an argument that is a comprehension over attributes (sc.data) is fine
@@ -1681,14 +1692,32 @@ def probe_memo_inplace(clsname, method):
                 x.data = y.data
             third = getattr(r, method)(held)
             fresh3 = getattr(mk(), method)([type(y)(y.data) for y in l2])
+        # one level down (audit2 B-7 / X5): elements whose `.data` is a caller-owned BYTEARRAY, edited in place (one byte,
+        # then the whole contents) - same list object, same element objects, same bytearray objects
+        fourth = fresh4 = fifth = fresh5 = None
+        if all(isinstance(getattr(x, "data", None), (bytes, bytearray)) for x in l1):
+            r = mk()
+            held = [type(x)(bytearray(x.data)) for x in l1]
+            getattr(r, method)(held)
+            held[-1].data[-1] ^= 0x77
+            fourth = getattr(r, method)(held)
+            fresh4 = getattr(mk(), method)([type(x)(bytes(x.data)) for x in held])
+            for x, y in zip(held, l2):
+                x.data[:] = y.data
+            fifth = getattr(r, method)(held)
+            fresh5 = getattr(mk(), method)([type(y)(bytes(y.data)) for y in l2])
     except Exception as e:
         return "notProbed", "%s.%s raised %s: %s" % (clsname, method, type(e).__name__, e)
+    if fourth != fresh4 or fifth != fresh5:
+        return "confirmedUnsafe", ("a = [S(bytearray(d)) ...]; x.%s(a); a[-1].data[-1] ^= 0x77 (the caller's bytearray edited in "
+                                   "place); x.%s(a) differs from fresh.%s(equal scripts): the stored key holds the caller's "
+                                   "bytearray objects" % (method, method, method))
     txt = "a = list(A1); x.%s(a); a[:] = A2; x.%s(a) (the same list object) vs fresh.%s(A2)" % (method, method, method)
     if second != fresh:
         return "confirmedUnsafe", txt + " differ (the stored key is the caller's list)"
     if third != fresh3:
         return "confirmedUnsafe", txt + " agree, but after editing the ELEMENTS in place (s.data = ...) the answers differ"
-    return "confirmedSafe", txt + " agree (also with the elements edited in place)"
+    return "confirmedSafe", txt + " agree (also with the elements edited in place, and with bytearray-backed elements edited byte by byte)"
 
 
 def memo_sites(sm, mod, class_memos, class_nodes, sites):
